@@ -7,6 +7,9 @@ S = core4.SIMUL
 
 
 def check(ctx):
+    from . import core8
+
+    core8.conditional_depth(ctx, "C12")
     core4.condition_branches(ctx, "C12")
     core4.simultaneous_relations(ctx, "C12")
     core4.merged_transactions(ctx, "C12")
